@@ -28,7 +28,9 @@ ChainOK(c, k, prev) == IF k > Len(c.raws) THEN TRUE
        /\ (k = 1 \/ Rev(Slice(c.raws[k], 5, 36)) = prev)
        /\ ChainOK(c, k + 1, Rev(h))
 Why(c) == CASE c.kind = "root" -> (IF c.res = "ok" /\ c.root = MerkleRoot(HO(c), c.txids) THEN "" ELSE "merkle_root-differs")
-            [] c.kind = "altered" -> WhyAltered(c) [] c.kind = "bits" -> WhyBits(c) [] c.kind = "header" -> WhyHeader(c)
+            [] c.kind = "altered" -> WhyAltered(c) [] c.kind = "bits" -> WhyBits(c)
+            [] c.kind = "t2b" -> (IF c.bits # TargetToBits(Strip(c.target)) THEN "target_to_bits:lead-" \o c.lead ELSE "")   \* arbitrary targets, leading byte around the sign bit
+            [] c.kind = "header" -> WhyHeader(c)
             [] c.kind = "chain" -> (IF c.valid = ChainOK(c, 1, <<>>) THEN "" ELSE IF c.valid THEN "accepts-bad-header-chain" ELSE "rejects-good-header-chain")
 VARIABLES i, bad
 Init == i = 1 /\ bad = <<>>
